@@ -41,6 +41,12 @@ checks = {
  "C14": ("E-BUF", "exploration", "runtime monitoring: whole-arena before/after images around every buffer call over a type x order x fill x capacity matrix (release, overflow-checked, ASan)",
          "Every put_*/write_*/put_slice/put/put_aligned/set_len/align_to/get_*/varint call of BytesRefMut and BytesMut is executed at every fill level of buffers of capacity 0..40 (fresh, recycled with offset != buffer_offset, aligned with padding, flush against the arena end) on both flavours; the oracle compares return value, len() and a byte image of the whole arena before/after, so a byte touched outside [offset, offset+capacity) inside the arena is seen; put->get round-trips for every type and order; LEB128 round-trips on empty buffers.",
          "Integer values are 5 per case (0, 1, MAX, MIN, byte-distinct xor random); overflow past the arena end is visible to ASan (thorough) or as a child crash.", "§4 C14"),
+ "C15": ("E-READ", "exploration", "runtime monitoring: reader results vs reference decode of a private memory copy, all offsets swept, extremes in overflow-checked and unchecked builds",
+         "For arenas at several fill states whose bytes at and above the cursor are non-zero continuation bytes, every reader is called at every offset 0..=capacity+16 and at the usize/isize/u32 extremes; Ok must equal the reference decode and occur exactly when the value lies wholly below allocated(); varint readers are compared with a reference decode restricted to the bytes below allocated() (so consuming a byte at or above it changes the result); slice accessor lengths are asserted.",
+         "Reference LEB128 decoder is the harness' own; a crash on an extreme offset is observed as the child's death.", "§4 C15"),
+ "C19": ("E-CKSUM", "exploration", "runtime monitoring: checksum() vs one-shot reference for two checksummers over swept allocated lengths",
+         "checksum(builder) is compared with builder.checksum_one(allocated_memory()[reserved..]) for Crc32 and for a position-dependent streaming hash (any dropped, duplicated or reordered chunk changes it; chunk lengths are recorded and must sum to the reference length) over allocated lengths around and across page multiples (thorough: every length 0..=3 pages+1) x reserved lengths x layouts x flavours.",
+         "One page size (4096).", "§4 C19"),
 }
 
 not_applicable = {
@@ -50,8 +56,6 @@ not_applicable = {
  "C07": "check under construction (bounded-progress monitor); not yet claimed",
  "C09": "check under construction (file mutation matrix); not yet claimed",
  "C12": "check under construction (vector-clock monitor + TSan/Miri); not yet claimed",
- "C15": "check under construction (arena reader sweep); not yet claimed",
- "C19": "check under construction (checksum sweep); not yet claimed",
 }
 
 def main():
@@ -69,6 +73,8 @@ def main():
       "engines": [
         {"name": "E-SEQ", "path": "harness/src/seq.rs", "serves_properties": [k for k,v in checks.items() if v[0]==SEQ], "kind_free_text": "single-threaded history fuzzer: shadow map + sequential reference model + lock-step differential runners; 16 child processes; release, overflow-checked and ASan builds"},
         {"name": "E-BUF", "path": "harness/src/bufs.rs", "serves_properties": ["C14"], "kind_free_text": "buffer call matrix with whole-arena byte images"},
+        {"name": "E-READ", "path": "harness/src/readers.rs", "serves_properties": ["C15"], "kind_free_text": "reader sweep against a reference decode"},
+        {"name": "E-CKSUM", "path": "harness/src/readers.rs", "serves_properties": ["C19"], "kind_free_text": "checksum sweep with two checksummers"},
       ],
       "checks": [],
       "not_applicable": [{"property_id":k,"reason":v} for k,v in sorted(not_applicable.items()) if k not in checks],
